@@ -16,7 +16,7 @@ def generate(tier, rng):
     n_enums = 24 if tier == 'quick' else 120
     for k in range(n_enums):
         nvar = 1 + k % 4
-        e = ESpec(id='c15_%d' % k, name='EnC15x%d' % k, derives=['EnumProperty'], feats=['prop'], generics=['', 'ty'][k % 2] if False else '')
+        e = ESpec(id='c15_%d' % k, name='EnC15x%d' % k, derives=['EnumProperty'], feats=['prop'], generics=['', 'ty', 'lt', 'ty_nd', 'const', 'where'][k % 6])
         e.extra['prop_groups'] = {}
         allkeys = set()
         for i in range(nvar):
@@ -55,7 +55,9 @@ def generate(tier, rng):
                 e.extra.setdefault('prop_interleave', {})[v.ident] = ['attr', 'list'][(k + i) % 2]
             v.dis = (k % 5 == 3 and i == nvar - 1 and nvar > 1)
             e.variants.append(v)
-        e.extra['shape'] = 'n=%d k=%d' % (nvar, k % 7)
+        from ..strcorpus import add_generic_field
+        add_generic_field(e)
+        e.extra['shape'] = 'n=%d k=%d gen=%s' % (nvar, k % 7, e.generics)
         c.add(e)
         queries = set(allkeys)
         for key in list(allkeys):
